@@ -82,6 +82,53 @@ def _param_through_callers(body, i, depth):
     return out
 
 
+def _param_names(body, sl):
+    """'param' if the slice reads a parameter other than the closure environment (parameter 1)."""
+    return {"param"} if any(p != 1 for p in sl.params()) else set()
+
+
+def _upvar_index(body, name):
+    for blk in body.blocks:
+        for st in blk.get("stmts", []):
+            for pl in _places_of(st):
+                for e in pl.get("p", []):
+                    if isinstance(e, dict) and e.get("adt") == "closure" and str(e.get("n")) == str(name) and "f" in e:
+                        return e["f"]
+    return None
+
+
+def _places_of(x):
+    if isinstance(x, dict):
+        if "l" in x and "p" in x:
+            yield x
+        for v in x.values():
+            yield from _places_of(v)
+    elif isinstance(x, list):
+        for v in x:
+            yield from _places_of(v)
+
+
+def _upvar_through_parent(body, name, depth):
+    """A captured variable of a closure stands for the operand captured where the closure is built."""
+    crate = CRATE[0]
+    if crate is None or depth >= 2 or body.kind != "Closure":
+        return None
+    parent = crate.bodies.get(body.parent) if getattr(body, "parent", None) else None
+    if parent is None:
+        return None
+    k = _upvar_index(body, name)
+    if k is None:
+        return None
+    for i, j, st in parent.assigns():
+        rv = st["rv"]
+        if rv["k"] == "agg" and rv.get("ak") == "closure" and rv.get("def") == body.name and k < len(rv["ops"]):
+            pv = prov(parent, rv["ops"][k], i, depth + 1)
+            if pv == "?":
+                return None
+            return set(pv.split("+"))
+    return None
+
+
 def prov(body, op, at, depth=0):
     """Provenance descriptor of an operand: sorted '+'-joined set of root descriptors."""
     if not isinstance(op, dict):
@@ -95,6 +142,8 @@ def prov(body, op, at, depth=0):
         return "const"
     sl = body.slice(op, at=at, through_calls=False)
     out = set()
+    drop_env = False
+    sub_has_param = [False]
     for a in sl.atoms:
         if a[0] == "const":
             v = a[1]
@@ -108,7 +157,14 @@ def prov(body, op, at, depth=0):
         elif a[0] == "field":
             adt = a[1]
             if adt in ("closure",):
-                out.add("upvar")
+                sub = _upvar_through_parent(body, a[2], depth)
+                if sub is None:
+                    out.add("upvar")
+                else:
+                    out |= sub
+                    drop_env = True
+                    if "param" in sub:
+                        sub_has_param[0] = True
             elif adt == "tuple" or adt.startswith("std::") or adt.startswith("core::"):
                 continue
             else:
@@ -121,6 +177,8 @@ def prov(body, op, at, depth=0):
             out.add("%s(%s)" % (name, prov(body, c.args[0], c.bb, depth + 1)))
         else:
             out.add("call:%s" % name)
+    if drop_env and body.kind == "Closure" and not sub_has_param[0] and "param" in out and not _param_names(body, sl):
+        out.discard("param")       # only the closure environment itself, now replaced by what it captured
     if not out:
         return "?"
     return "+".join(sorted(out))
